@@ -1,62 +1,152 @@
 """C09 — storage backends as a tag-isolated durable map.
-Correspondence: Lean Sqlite/Mock models vs SqliteStorage on a real temp file / MockStorage, random op sequences
-with close+reopen; threaded stress checked against the no-lost-write corollary.
-Search oracle: the map laws (reference dict) evaluated directly on the real backend."""
+
+Ties between the Lean layer (Model/Storage.lean, Props/C09.lean, Model/SqlSite.lean, Props/C09Sql.lean) and the code:
+
+  (S) STATIC   tools/gen_sql_sites.py regenerates lean/Csverif/Gen/SqlSites.lean from cloudsync/sync/sqlite_storage.py of the
+               repo under test (every SQL statement, the control structure around the cursor calls, LIMIT/OFFSET/ORDER BY, mutex);
+               Props/C09Sql.lean (kept out of the default library target, built here) proves by `decide` that the table is the
+               audited one and that the model-relevant facts hold (one un-paged SELECT per read_all form, nothing in a loop, keys
+               where the model's `hits` has them, everything under the mutex).  A rewritten statement breaks this obligation and
+               sends the check into the search of step 4.
+  (D) DYNAMIC  differential execution of the Lean Sqlite/Mock models against SqliteStorage on a real temp file / MockStorage:
+               (a) many short random op sequences (3 plain tags; and tags that are prefixes of each other / contain % _ ' / differ in
+                   case / unicode / empty), with close+reopen;
+               (b) SIZE-SCALING programs: bulk phases of hundreds to thousands of creates over 1-4 tags with interleaved deletes and
+                   updates (contiguous and gappy id ranges, gaps at varying offsets), read_all per tag and for all tags at row counts
+                   around powers of two and typical batch sizes (63/64/65, 99..101, 255..257, 499..502, 999..1002, 1023..1025, ...),
+                   close/reopen, point reads across the whole id range, payloads from empty to 64 KiB (> 1 MiB once in thorough);
+                   the model side also runs its keyset-paged reader (arbitrary page size, correct cursor rule) on the same tables;
+               (c) threaded stress: writers/readers on own rows; concurrent read_all readers during a bulk write.
+Search oracle (step 4, only when the proof audit, the static table or the correspondence broke): the map laws (reference dict)
+evaluated directly on the real backend, on short sequences first and then on the size-scaling programs; a failing program is
+shrunk (delta debugging) and written, complete, into the replay file (`./check C09 --replay <file>` re-runs it)."""
+import fcntl
+import hashlib
+import json
 import os
 import shutil
+import subprocess
 import sys
 import tempfile
 import threading
+import time
 
 sys.path.insert(0, os.path.dirname(os.path.abspath(__file__)))
 from common import *  # noqa
+sys.path.insert(0, os.path.join(VERIF, "tools"))
+import gen_sql_sites  # noqa
 
 PID = "C09"
 TAGS = ["ta", "tb", "cursor_tag"]
+# tags that are prefixes of each other, contain SQL wildcard / quote characters, differ only in case, are not ASCII, are empty
+TRICKY_TAGS = ["t", "ta", "tab", "ta%", "t_", "%", "_", "o'k", "TA", "Ta", "é中", "", "a b", "t;--", '"q"', "ta\\"]
 FP_SPEC = {"cloudsync/sync/sqlite_storage.py": ["SqliteStorage.create", "SqliteStorage.update", "SqliteStorage.delete",
                                                 "SqliteStorage.read_all", "SqliteStorage.read", "SqliteStorage.__db_execute",
                                                 "SqliteStorage.__db_connect", "SqliteStorage._ensure_table_exists"],
            "cloudsync/tests/fixtures/mock_storage.py": ["MockStorage.create", "MockStorage.update", "MockStorage.delete",
                                                         "MockStorage.read_all", "MockStorage.read"]}
 
+# row counts at which read_all is compared: around powers of two and around typical batch / page sizes
+SPECIAL_BASES = [(64, 1), (100, 1), (128, 1), (256, 1), (500, 2), (512, 1), (1000, 2), (1024, 1), (2048, 1), (4096, 1),
+                 (5000, 1), (8192, 1), (10000, 1), (16384, 1)]
+SPECIAL = sorted({b + d for b, w in SPECIAL_BASES for d in range(-1, w + 1)})
+CAP = {"quick": 4097, "thorough": 16385}
+
+
+# ---------------------------------------------------------------------------------------------------------------
+# value and tag tokens: pure, injective, self-describing (the model never inspects values; a replay file needs no side table)
+
+_CYCLE = bytes(range(256))
+
+
+def pat(n, k):
+    """a non-constant byte pattern of length n starting at byte value k"""
+    return (_CYCLE * (n // 256 + 2))[k:k + n]
+
+
+def vtok(v):
+    if isinstance(v, bool):
+        return "?bool%r" % v
+    if isinstance(v, bytes):
+        if len(v) <= 24:
+            return "b" + v.hex()
+        if v == pat(len(v), v[0]):
+            return "p%d_%d" % (len(v), v[0])
+        if v == bytes([v[0]]) * len(v):
+            return "q%d_%d" % (len(v), v[0])
+        return "?bytes%d_%s" % (len(v), hashlib.sha1(v).hexdigest()[:12])
+    if isinstance(v, int):
+        return "i%d" % v
+    if isinstance(v, str):
+        return "s" + v.encode("utf8").hex()
+    if isinstance(v, float):
+        return "f" + repr(v)
+    return "?" + type(v).__name__ + hashlib.sha1(repr(v).encode()).hexdigest()[:12]
+
+
+def vval(tok):
+    k = tok[0]
+    if k == "b":
+        return bytes.fromhex(tok[1:])
+    if k == "p":
+        n, s = tok[1:].split("_")
+        return pat(int(n), int(s))
+    if k == "q":
+        n, s = tok[1:].split("_")
+        return bytes([int(s)]) * int(n)
+    if k == "i":
+        return int(tok[1:])
+    if k == "s":
+        return bytes.fromhex(tok[1:]).decode("utf8")
+    if k == "f":
+        return float(tok[1:])
+    raise HarnessError("value token %r cannot be decoded" % tok)
+
+
+def ttok(tag):
+    """tag -> token without spaces; plain tags stand for themselves"""
+    if tag is None:
+        return "~"
+    if tag and all(c.isascii() and (c.isalnum() or c == "_") for c in tag):
+        return tag
+    return "@" + ".".join(str(ord(c)) for c in tag)
+
+
+def tval(tok):
+    if tok == "~":
+        return None
+    if tok.startswith("@"):
+        return "".join(chr(int(x)) for x in tok[1:].split(".")) if len(tok) > 1 else ""
+    return tok
+
 
 class ValTable:
-    """opaque tokens for values so that the model never inspects them"""
-    def __init__(self):
-        self.tok = {}
-        self.vals = []
-
-    def token(self, v):
-        k = (type(v).__name__, v)
-        if k not in self.tok:
-            self.tok[k] = "v%d" % len(self.vals)
-            self.vals.append(v)
-        return self.tok[k]
-
-    def back(self, v):
-        k = (type(v).__name__, v)
-        return self.tok.get(k, "?" + repr(v)[:40].replace(" ", "_"))
+    """kept for the callers' shape: tokens are pure functions of the value now"""
+    token = staticmethod(vtok)
+    back = staticmethod(vtok)
 
 
 def value_pool(rng):
-    return [b"", b"x", b"\xff\xfe\x00\x80", bytes(rng.getrandbits(8) for _ in range(300)), b"A" * 100000,
-            0, 1, 17, -3, 2 ** 40, "cursor-abc", "", "é中", 1.5, b"x" * 2049, b"\x00"]
+    return [b"", b"x", b"\xff\xfe\x00\x80", pat(300, rng.randrange(256)), b"A" * 100000, pat(65536, rng.randrange(256)),
+            0, 1, 17, -3, 2 ** 40, "cursor-abc", "", "é中", 1.5, pat(2049, 7), b"\x00"]
 
 
-def gen_ops(rng, n, vals):
+def gen_ops(rng, n, vals, tags=TAGS):
     ops = []
     known_ids = []
+    ncreate = 0
     for _ in range(n):
         r = rng.random()
-        tag = rng.choice(TAGS)
+        tag = rng.choice(tags)
         if known_ids and rng.random() < 0.75:
             eid = rng.choice(known_ids)
         else:
             eid = rng.choice([None, 0, 1, 2, 3, 5, 99, 10 ** 6])
         if r < 0.30:
             ops.append(("create", tag, rng.choice(vals)))
-            known_ids.append(len([o for o in ops if o[0] == "create"]))  # plausible ids for both backends
-            known_ids.append(len([o for o in ops if o[0] == "create"]) - 1)
+            ncreate += 1
+            known_ids.append(ncreate)  # plausible ids for both backends
+            known_ids.append(ncreate - 1)
         elif r < 0.50:
             ops.append(("update", tag, rng.choice(vals), eid))
         elif r < 0.62:
@@ -64,23 +154,43 @@ def gen_ops(rng, n, vals):
         elif r < 0.80:
             ops.append(("read", tag, eid))
         elif r < 0.92:
-            ops.append(("readall", rng.choice(TAGS + [None])))
+            ops.append(("readall", rng.choice(list(tags) + [None])))
         else:
             ops.append(("reopen",))
     return ops
 
 
-def op_line(op, vt):
+def op_line(op, vt=None, mock=False):
     e = lambda x: "~" if x is None else str(x)
     if op[0] == "create":
-        return "create %s %s" % (op[1], vt.token(op[2]))
+        return "create %s %s" % (ttok(op[1]), vtok(op[2]))
     if op[0] == "update":
-        return "update %s %s %s" % (op[1], vt.token(op[2]), e(op[3]))
+        return "update %s %s %s" % (ttok(op[1]), vtok(op[2]), e(op[3]))
     if op[0] in ("delete", "read"):
-        return "%s %s %s" % (op[0], op[1], e(op[2]))
+        return "%s %s %s" % (op[0], ttok(op[1]), e(op[2]))
     if op[0] == "readall":
-        return "readall %s" % e(op[1])
+        return "readall %s" % ttok(op[1])
+    if op[0] == "readpaged":      # real side: read_all; model side: the paged reader with the correct cursor rule
+        return "readall %s" % ttok(op[1]) if mock else "readpaged %s %d 0" % (ttok(op[1]), op[2])
     return op[0]
+
+
+def parse_line(line):
+    t = line.split()
+    d = lambda x: None if x == "~" else int(x)
+    if t[0] == "create":
+        return ("create", tval(t[1]), vval(t[2]))
+    if t[0] == "update":
+        return ("update", tval(t[1]), vval(t[2]), d(t[3]))
+    if t[0] in ("delete", "read"):
+        return (t[0], tval(t[1]), d(t[2]))
+    if t[0] == "readall":
+        return ("readall", tval(t[1]))
+    if t[0] == "readpaged":
+        return ("readpaged", tval(t[1]), int(t[2]))
+    if t[0] == "reopen":
+        return ("reopen",)
+    raise HarnessError("cannot parse op line %r" % line)
 
 
 def canon_rows(line):
@@ -90,6 +200,8 @@ def canon_rows(line):
 
 
 class RealSqlite:
+    kind = "sqlite"
+
     def __init__(self):
         import_repo()
         from cloudsync.sync.sqlite_storage import SqliteStorage
@@ -97,10 +209,17 @@ class RealSqlite:
         self.dir = tempfile.mkdtemp(prefix="c09_", dir="/dev/shm" if os.path.isdir("/dev/shm") else None)
         self.n = 0
         self.st = None
+        self.path = None
 
     def reset(self):
         if self.st:
             self.st.close()
+        if self.path:                       # big tables: do not let them pile up in the temp dir
+            for suf in ("", "-wal", "-shm"):
+                try:
+                    os.unlink(self.path + suf)
+                except OSError:
+                    pass
         self.n += 1
         self.path = os.path.join(self.dir, "db%d.sqlite" % self.n)
         self.st = self.cls(self.path)
@@ -118,6 +237,8 @@ class RealSqlite:
 
 
 class RealMock:
+    kind = "mock"
+
     def __init__(self):
         import_repo()
         from cloudsync.tests.fixtures.mock_storage import MockStorage
@@ -134,7 +255,7 @@ class RealMock:
         pass
 
 
-def real_apply(be, op, vt):
+def real_apply(be, op, vt=None, stats=None):
     try:
         if op[0] == "create":
             return "id %d" % be.st.create(op[1], op[2])
@@ -145,13 +266,18 @@ def real_apply(be, op, vt):
             return "unit" if r is None else "?delete-returned"
         if op[0] == "read":
             r = be.st.read(op[1], op[2])
-            return "val ~" if r is None else "val " + vt.back(r)
-        if op[0] == "readall":
+            return "val ~" if r is None else "val " + vtok(r)
+        if op[0] in ("readall", "readpaged"):
             r = be.st.read_all(op[1]) if op[1] is not None else be.st.read_all()
             if op[1] is not None:
-                items = ["%s:%s:%s" % (op[1], k, vt.back(v)) for k, v in r.items()]
+                tt = ttok(op[1])
+                items = ["%s:%s:%s" % (tt, k, vtok(v)) for k, v in r.items()]
+                ids = list(r)
             else:
-                items = ["%s:%s:%s" % (t, k, vt.back(v)) for t, d in r.items() for k, v in d.items()]
+                items = ["%s:%s:%s" % (ttok(t), k, vtok(v)) for t, d in r.items() for k, v in d.items()]
+                ids = [k for d in r.values() for k in d]
+            if stats is not None:
+                stats.readall(op, ids)
             return "rows " + " ".join(sorted(items))
         if op[0] == "reopen":
             be.reopen()
@@ -163,15 +289,16 @@ def real_apply(be, op, vt):
     raise HarnessError("bad op")
 
 
-def correspondence(layer, be, seqs, vt):
+def correspondence(layer, be, seqs, vt=None, stats=None):
     lines, reals = [], []
+    mock = layer == "mockstorage"
     for ops in seqs:
         be.reset()
         lines.append("reset")
         reals.append("unit")
         for op in ops:
-            lines.append(op_line(op, vt))
-            reals.append(real_apply(be, op, vt))
+            lines.append(op_line(op, mock=mock))
+            reals.append(real_apply(be, op, stats=stats))
     model = [canon_rows(x) for x in run_driver(layer, lines)]
     dis = []
     for i, (r, m) in enumerate(zip(reals, model)):
@@ -180,27 +307,488 @@ def correspondence(layer, be, seqs, vt):
             j = i
             while lines[j] != "reset":
                 j -= 1
-            dis.append({"layer": layer, "sequence": lines[j:i + 1], "implementation": r, "model": m})
+            dis.append({"layer": layer, "sequence_ops": i - j, "sequence": summarize(lines[j + 1:i + 1]),
+                        "implementation": clip(r), "model": clip(m), "difference": rows_diff(r, m)})
             if len(dis) >= 5:
                 break
     return lines, reals, dis
 
 
+def clip(s, n=400):
+    return s if len(s) <= n else s[:n] + " …(%d chars)" % len(s)
+
+
+def rows_diff(r, m):
+    if not (r.startswith("rows") and m.startswith("rows")):
+        return None
+    a, b = set(r.split()[1:]), set(m.split()[1:])
+    return {"rows_implementation": len(a), "rows_model": len(b), "missing_in_implementation": sorted(b - a)[:8],
+            "unexpected_in_implementation": sorted(a - b)[:8]}
+
+
+def summarize(lines, keep=12):
+    """run-length summary of an op-line list: consecutive creates of one tag are folded"""
+    out = []
+    i = 0
+    while i < len(lines):
+        t = lines[i].split()
+        if t[0] == "create":
+            j = i
+            while j < len(lines) and lines[j].split()[0] == "create" and lines[j].split()[1] == t[1]:
+                j += 1
+            if j - i > 3:
+                out.append("create %s ×%d (%s … %s)" % (t[1], j - i, clip(t[2], 24), clip(lines[j - 1].split()[2], 24)))
+                i = j
+                continue
+        out.append(clip(lines[i], 80))
+        i += 1
+    if len(out) > 2 * keep:
+        out = out[:keep] + ["… %d more entries …" % (len(out) - 2 * keep)] + out[-keep:]
+    return out
+
+
+# ---------------------------------------------------------------------------------------------------------------
+# size-scaling programs
+
+class IdPredictor:
+    """what id the backend will hand out (only used to aim deletes/updates/reads at live rows; a wrong guess is just a miss)"""
+
+    def __init__(self, kind):
+        self.kind = kind
+        self.live = {}          # sqlite: id -> tag ; mock: (tag, id) -> True
+        self.cursor = 0
+        self.maxid = 0
+        self.maxid_dirty = False
+
+    def create(self, tag):
+        if self.kind == "sqlite":
+            if self.maxid_dirty:
+                self.maxid = max(self.live) if self.live else 0
+                self.maxid_dirty = False
+            self.maxid += 1
+            self.live[self.maxid] = tag
+            return self.maxid
+        n = self.cursor
+        self.cursor += 1
+        self.live[(tag, n)] = True
+        return n
+
+    def delete(self, tag, eid):
+        if self.kind == "sqlite":
+            if self.live.get(eid) == tag:
+                del self.live[eid]
+                if eid == self.maxid:
+                    self.maxid_dirty = True
+        else:
+            self.live.pop((tag, eid), None)
+
+    def reopen(self):
+        if self.kind == "mock":
+            self.cursor = 0
+
+    def count(self, tag=None):
+        if self.kind == "sqlite":
+            return len(self.live) if tag is None else sum(1 for t in self.live.values() if t == tag)
+        return len(self.live) if tag is None else sum(1 for (t, _i) in self.live if t == tag)
+
+    def rows(self):
+        """[(tag, id)] of the predicted live rows"""
+        if self.kind == "sqlite":
+            return [(t, i) for i, t in self.live.items()]
+        return list(self.live)
+
+
+class Prog:
+    """builder of one program"""
+
+    def __init__(self, rng, kind, tier):
+        self.rng, self.kind, self.tier = rng, kind, tier
+        self.ops = []
+        self.pred = IdPredictor(kind)
+        self.per_tag = {}
+        self.nrow = 0
+        self.big_payloads = 0
+        self.done_cp = set()
+        self.livelist = []        # [(tag, id)] in creation order, lazily pruned
+        self.dead = set()
+
+    def payload(self):
+        r = self.rng.random()
+        self.nrow += 1
+        if r < 0.985:
+            return b"r%d" % self.nrow
+        c = self.rng.randrange(6)
+        if c == 0:
+            return b""
+        if c == 1:
+            return bytes([self.rng.randrange(256)])
+        if c == 2 and self.big_payloads < 3:
+            self.big_payloads += 1
+            return pat(65536, self.rng.randrange(256))
+        if c == 3:
+            return pat(self.rng.choice([25, 255, 256, 257, 1000, 2048, 2049, 4096]), self.rng.randrange(256))
+        if c == 4:
+            return self.rng.choice([0, 17, 2 ** 40, -1])
+        return b"\xff\xfe\x00r%d" % self.nrow
+
+    def create(self, tag, v=None):
+        self.ops.append(("create", tag, self.payload() if v is None else v))
+        n = self.pred.create(tag)
+        self.per_tag[tag] = self.per_tag.get(tag, 0) + 1
+        self.livelist.append((tag, n))
+        self.dead.discard((tag, n))
+        return n
+
+    def delete(self, tag, eid):
+        self.ops.append(("delete", tag, eid))
+        before = self.pred.count()
+        self.pred.delete(tag, eid)
+        if self.pred.count() < before:
+            self.per_tag[tag] -= 1
+            self.dead.add((tag, eid))
+
+    def pick_live(self):
+        for _ in range(20):
+            if not self.livelist:
+                return None
+            k = self.rng.randrange(len(self.livelist))
+            if self.livelist[k] in self.dead:
+                self.livelist[k] = self.livelist[-1]
+                self.livelist.pop()
+                continue
+            return self.livelist[k]
+        return None
+
+    def total(self):
+        return sum(self.per_tag.values())
+
+    def readall(self, tag, paged=False):
+        if paged and self.kind == "sqlite":
+            n = self.total() if tag is None else self.per_tag.get(tag, 0)
+            ps = [2, 3, 7, 64, 100, 500, 512, 1000, max(1, n - 1), max(1, n), n + 1, self.rng.randint(1, max(2, n))]
+            if n <= 1100:
+                ps.append(1)
+            self.ops.append(("readpaged", tag, self.rng.choice(ps)))
+        else:
+            self.ops.append(("readall", tag))
+
+    def checkpoint(self, tag_just_created, cps):
+        """read_all when the live count of the tag / of the table is one of the sizes to compare at"""
+        tot = self.total()
+        if tot in cps and ("all", tot) not in self.done_cp:
+            self.done_cp.add(("all", tot))
+            if self.rng.random() < 0.2:
+                self.reopen()
+            self.readall(None, paged=self.rng.random() < 0.25)
+        n = self.per_tag.get(tag_just_created, 0)
+        if n in cps and (tag_just_created, n) not in self.done_cp:
+            self.done_cp.add((tag_just_created, n))
+            self.readall(tag_just_created, paged=self.rng.random() < 0.25)
+
+    def reopen(self):
+        self.ops.append(("reopen",))
+        self.pred.reopen()
+
+    def finale(self, tags):
+        for t in tags:
+            self.readall(t)
+        self.readall(None)
+        self.reopen()
+        for t in tags:
+            self.readall(t, paged=self.rng.random() < 0.5)
+        self.readall(None, paged=self.rng.random() < 0.5)
+        for _ in range(6):
+            lv = self.pick_live()
+            if lv:
+                self.ops.append(("read", lv[0], lv[1]))
+
+
+def pick_tags(rng, k):
+    pool = TAGS + TRICKY_TAGS
+    tags = []
+    while len(tags) < k:
+        t = rng.choice(pool)
+        if t not in tags:
+            tags.append(t)
+    return tags
+
+
+def tag_chooser(rng, tags, pattern):
+    """how consecutive creates are spread over the tags: contiguous per tag / strided / random / blocks of random length"""
+    state = {"i": 0, "left": 0, "cur": tags[0]}
+
+    def nxt():
+        if pattern == "single" or len(tags) == 1:
+            return tags[0]
+        if pattern == "roundrobin":
+            state["i"] += 1
+            return tags[state["i"] % len(tags)]
+        if pattern == "random":
+            return rng.choice(tags)
+        if pattern == "mostly":           # one big tag with rows of the others sprinkled in (gaps at random offsets)
+            return tags[0] if rng.random() < 0.93 else rng.choice(tags[1:])
+        if state["left"] <= 0:            # blocks
+            state["cur"] = rng.choice(tags)
+            state["left"] = rng.choice([1, 2, 5, 31, 64, 100, 257, 500, 700])
+        state["left"] -= 1
+        return state["cur"]
+    return nxt
+
+
+def prog_growth(rng, kind, tier, target, ntags, pattern, churn, cps, max_total=None):
+    """create until the biggest tag holds `target` live rows; deletes/updates interleaved with probability `churn`;
+    read_all at every checkpoint size on the way"""
+    p = Prog(rng, kind, tier)
+    tags = pick_tags(rng, ntags)
+    nxt = tag_chooser(rng, tags, pattern)
+    guard = 0
+    while max(p.per_tag.values(), default=0) < target and guard < 20 * target + 1000 and (max_total is None or p.total() < max_total):
+        guard += 1
+        if churn and rng.random() < churn:
+            lv = p.pick_live()
+            if lv:
+                if rng.random() < 0.6:
+                    p.delete(lv[0], lv[1])
+                    if rng.random() < 0.1:
+                        p.delete(lv[0], lv[1])          # idempotent
+                else:
+                    p.ops.append(("update", lv[0], b"u%d" % guard, lv[1]))
+            continue
+        t = nxt()
+        p.create(t)
+        p.checkpoint(t, cps)
+    p.finale(tags)
+    return p.ops, {"family": "growth", "tags": tags, "pattern": pattern if ntags > 1 else "single", "churn": churn, "target": target}
+
+
+def prog_shrink(rng, kind, tier, target, ntags, pattern, how, dmin=0):
+    """build target+d rows of the main tag, then delete d of them in a pattern so that exactly `target` stay; read_all; grow a
+    little again (id reuse after a deleted tail); read_all; reopen; read_all"""
+    p = Prog(rng, kind, tier)
+    tags = pick_tags(rng, ntags)
+    main = tags[0]
+    if target * ntags > 1.3 * CAP[tier]:
+        pattern = "mostly"              # keep the whole table near the cap: the main tag with other tags' rows sprinkled in
+    nxt = tag_chooser(rng, tags, pattern)
+    d = max(dmin, rng.choice([0, 1, 2, 3, 17, 64, 100, max(1, target // 10), max(1, target // 3)]))
+    mine = []
+    while len(mine) < target + d:
+        t = nxt()
+        n = p.create(t)
+        if t == main:
+            mine.append(n)
+    if how == "prefix":
+        victims = mine[:d]
+    elif how == "suffix":
+        victims = mine[len(mine) - d:] if d else []
+    elif how == "middle":
+        o = rng.randint(0, len(mine) - d)
+        victims = mine[o:o + d]
+    elif how == "stride":
+        victims = mine[rng.randrange(3)::max(1, len(mine) // max(1, d))][:d]
+        rest = [n for n in mine if n not in set(victims)]
+        victims += rng.sample(rest, d - len(victims))
+    else:
+        victims = rng.sample(mine, d)
+    for n in victims:
+        p.delete(main, n)
+    p.readall(main)
+    p.readall(None, paged=rng.random() < 0.3)
+    # updates on a slice, then a few more creates (a deleted tail makes sqlite hand the freed max id out again)
+    for n in rng.sample(mine, min(len(mine), 20)):
+        p.ops.append(("update", main, b"u%d" % n, n))
+    extra = rng.choice([0, 1, 2, 5])
+    for _ in range(extra):
+        p.create(main)
+    p.finale(tags)
+    return p.ops, {"family": "shrink", "tags": tags, "pattern": pattern if ntags > 1 else "single", "how": how, "target": target, "deleted": len(victims)}
+
+
+def prog_pointwise(rng, kind, tier, target, ntags):
+    """bulk create, then point operations across the whole id range: ids that differ by powers of two, the right id under the
+    wrong tag, update-then-read, delete-then-read"""
+    p = Prog(rng, kind, tier)
+    tags = pick_tags(rng, ntags)
+    nxt = tag_chooser(rng, tags, "mostly" if ntags > 1 else "single")
+    while p.total() < target:
+        p.create(nxt())
+    rows = p.pred.rows()
+    ids = sorted(i for _t, i in rows)
+    for _ in range(300 if tier == "quick" else 1500):
+        t, i = rng.choice(rows)
+        c = rng.random()
+        j = max(0, i + rng.choice([0, 0, 1, -1, 64, 128, 256, 512, 1024, 2048, 4096, -64, -256, -1024, -4096, 1000, -1000, 500]))
+        if c < 0.35:
+            p.ops.append(("read", t, j))
+        elif c < 0.5:
+            p.ops.append(("read", rng.choice(tags), j))
+        elif c < 0.7:
+            p.ops.append(("update", t, b"u%d" % rng.randrange(10 ** 6), j))
+            p.ops.append(("read", t, j))
+        elif c < 0.8:
+            p.ops.append(("update", rng.choice(tags), b"w%d" % rng.randrange(10 ** 6), j))
+        elif c < 0.9:
+            p.delete(t, i)
+            p.ops.append(("read", t, i))
+        else:
+            p.ops.append(("read", t, rng.choice(ids)))
+    p.finale(tags)
+    return p.ops, {"family": "pointwise", "tags": tags, "pattern": "mostly" if ntags > 1 else "single", "target": target}
+
+
+def prog_payload(rng, kind, tier):
+    """payload sizes: empty, 1 byte, 64 KiB, > 1 MiB (thorough), over two tags, read back / read_all / reopen"""
+    p = Prog(rng, kind, tier)
+    tags = pick_tags(rng, 2)
+    sizes = [0, 1, 2, 255, 4096, 65535, 65536, 65537]
+    if tier == "thorough":
+        sizes += [1048576 + 17, 1048576]
+    made = []
+    for s in sizes:
+        t = rng.choice(tags)
+        v = pat(s, rng.randrange(256)) if s > 24 else bytes(rng.randrange(256) for _ in range(s))
+        made.append((t, p.create(t, v), s))
+        p.ops.append(("read", t, made[-1][1]))
+    for (t, n, s) in made:
+        if rng.random() < 0.5:
+            p.ops.append(("update", t, pat(max(25, s + rng.choice([-1, 0, 1])), rng.randrange(256)), n))
+    p.finale(tags)
+    return p.ops, {"family": "payload", "tags": tags, "pattern": "random", "target": len(sizes)}
+
+
+def scaled_plan(rng, tier, kind, salt_light=False):
+    """the list of programs of one tier: every run covers every checkpoint size up to the tier's cap (contiguous and gappy tables,
+    per-tag and all-tags form) plus sizes drawn at random"""
+    cap = CAP[tier] if kind == "sqlite" else (1025 if tier == "quick" else 4097)
+    cps = set(s for s in SPECIAL if s <= cap)
+    progs = []
+    add = progs.append
+    # 1. one tag, no deletes: contiguous ids, every checkpoint size, per-tag and all-tags form
+    add(prog_growth(rng, kind, tier, cap + rng.randint(0, 40), 1, "single", 0.0, cps))
+    # 2. several tags, no deletes: the table is contiguous, every tag's own ids are not
+    for pattern, k in (("roundrobin", 2), ("blocks", 3), ("mostly", rng.choice([2, 3, 4])), ("random", 4)):
+        tgt = rng.choice([s for s in SPECIAL if cap // 8 <= s <= cap // 2]) + rng.randint(0, 3)
+        add(prog_growth(rng, kind, tier, tgt, k, pattern, 0.0, cps, max_total=int(1.3 * cap)))
+    # 3. deletes and updates interleaved: gaps at varying offsets
+    for pattern, k in (("single", 1), ("blocks", 2), ("mostly", 3)):
+        tgt = rng.choice([s for s in SPECIAL if cap // 8 <= s <= cap // 2]) + rng.randint(0, 3)
+        add(prog_growth(rng, kind, tier, tgt, k, pattern, rng.choice([0.05, 0.15, 0.3]), cps, max_total=int(1.3 * cap)))
+    # 4. exact sizes reached by deleting: one program per bucket of checkpoint sizes (quick) / per checkpoint size (thorough)
+    buckets = {}
+    for s in sorted(cps):
+        buckets.setdefault(len(bin(s)) if tier == "quick" else s, []).append(s)
+    hows = ["prefix", "suffix", "middle", "stride", "random"]
+    for bi, (_b, ss) in enumerate(sorted(buckets.items())):
+        if kind != "sqlite" and bi % 2:
+            continue
+        how = hows[(bi + rng.randrange(5)) % 5]
+        k = rng.choice([2, 3]) if how in ("prefix", "suffix") else rng.choice([1, 1, 2, 3])      # the kept rows must have id gaps
+        add(prog_shrink(rng, kind, tier, rng.choice(ss), k, rng.choice(["mostly", "blocks", "roundrobin"]), how, dmin=1))
+    # 5. sizes drawn at random (log-uniform over the whole range)
+    for _ in range(4 if tier == "quick" else 30):
+        tgt = int(2 ** rng.uniform(5, len(bin(cap)) - 2.3))
+        if rng.random() < 0.5:
+            add(prog_growth(rng, kind, tier, tgt, rng.choice([1, 2, 3, 4]), rng.choice(["roundrobin", "blocks", "mostly", "random"]),
+                            rng.choice([0.0, 0.1, 0.25]), cps, max_total=int(1.3 * cap)))
+        else:
+            add(prog_shrink(rng, kind, tier, tgt, rng.choice([1, 2, 3]), rng.choice(["mostly", "blocks"]), rng.choice(hows)))
+    # 6. point operations across a big id range, payload sizes
+    add(prog_pointwise(rng, kind, tier, rng.randint(2100, 2700) if kind == "sqlite" else 1100, rng.choice([1, 2, 3])))
+    if tier == "thorough":
+        add(prog_pointwise(rng, kind, tier, rng.randint(4200, 9000) if kind == "sqlite" else 2100, rng.choice([1, 2, 3])))
+    add(prog_payload(rng, kind, tier))
+    # 7. thorough: one table far beyond the cap
+    if tier == "thorough" and kind == "sqlite":
+        add(prog_growth(rng, kind, tier, rng.randint(20000, 33000), 1, "single", 0.0, set(SPECIAL) | {20000, 30000, 32767, 32768, 32769}))
+    return progs
+
+
+class ScaleStats:
+    """what the size-scaling programs really exercised (from the implementation's answers)"""
+
+    def __init__(self):
+        self.sizes = {"tag": {}, "all": {}}
+        self.contig = {}
+        self.gappy = {}
+        self.max_rows = 0
+        self.readalls = 0
+
+    @staticmethod
+    def label(n):
+        if n in SPECIAL or n <= 2:
+            return str(n)
+        lo = max([s for s in SPECIAL if s < n] + [2])
+        hi = min([s for s in SPECIAL if s > n] + [10 ** 9])
+        return "%d-%s" % (lo + 1, hi - 1 if hi < 10 ** 9 else "")
+
+    def readall(self, op, ids):
+        n = len(ids)
+        lab = self.label(n)
+        form = "all" if op[1] is None else "tag"
+        self.sizes[form][lab] = self.sizes[form].get(lab, 0) + 1
+        self.readalls += 1
+        self.max_rows = max(self.max_rows, n)
+        if n >= 2:
+            try:
+                c = max(ids) - min(ids) + 1 == n
+            except TypeError:
+                c = False
+            d = self.contig if c else self.gappy
+            d[lab] = d.get(lab, 0) + 1
+
+    def ordered(self, d):
+        key = lambda s: int(s.split("-")[0])
+        return {k: d[k] for k in sorted(d, key=key)}
+
+    def missing(self, cap):
+        """checkpoint sizes up to the cap that no read_all returned (per form, contiguous and gappy)"""
+        need = [str(s) for s in SPECIAL if s <= cap]
+        out = []
+        for what, d in (("read_all(tag)", self.sizes["tag"]), ("read_all()", self.sizes["all"]), ("contiguous ids", self.contig)):
+            miss = [s for s in need if s not in d]
+            if miss:
+                out.append("%s: %s" % (what, ",".join(miss)))
+        # gappy tables: at least one checkpoint size in every power-of-two bucket
+        have = {len(bin(int(k))) for k in self.gappy if k.isdigit()}
+        miss = sorted({len(bin(s)) for s in SPECIAL if s <= cap} - have)
+        if miss:
+            out.append("gappy ids: no checkpoint size with %s bits" % ",".join(str(b - 2) for b in miss))
+        return out
+
+
+def payload_hist(seqs):
+    h = {}
+    for ops in seqs:
+        for op in ops:
+            if op[0] in ("create", "update"):
+                v = op[2]
+                if isinstance(v, bytes):
+                    n = len(v)
+                    k = "bytes 0" if n == 0 else "bytes 1" if n == 1 else "bytes 2-24" if n <= 24 else "bytes 25-4096" if n <= 4096 else \
+                        "bytes 4097-65535" if n < 65536 else "bytes 64KiB-1MiB" if n <= 1048576 else "bytes >1MiB"
+                else:
+                    k = type(v).__name__
+                h[k] = h.get(k, 0) + 1
+    return h
+
+
+# ---------------------------------------------------------------------------------------------------------------
+# the property itself, evaluated on the implementation
+
 def spec_oracle(be, ops, mock_quirks=False):
     """the property itself on the real backend: reference dict semantics.  Returns failure dict or None."""
     ref = {}
     be.reset()
-    vt = ValTable()
     for i, op in enumerate(ops):
-        r = real_apply(be, op, vt)
+        r = real_apply(be, op)
         bad = None
         if op[0] == "create":
             if not r.startswith("id "):
-                bad = "create did not return an id"
+                bad = "create did not return an id: %s" % r
             else:
                 n = int(r.split()[1])
                 if (op[1], n) in ref:
-                    bad = "create returned id %d already used by a live row of tag %s" % (n, op[1])
+                    bad = "create returned id %d already used by a live row of tag %r" % (n, op[1])
                 ref[(op[1], n)] = op[2]
         elif op[0] == "update":
             if (op[1], op[3]) in ref:
@@ -214,17 +802,105 @@ def spec_oracle(be, ops, mock_quirks=False):
             if r != "unit":
                 bad = "delete returned %s" % r
         elif op[0] == "read":
-            want = "val " + vt.back(ref[(op[1], op[2])]) if (op[1], op[2]) in ref else "val ~"
+            want = "val " + vtok(ref[(op[1], op[2])]) if (op[1], op[2]) in ref else "val ~"
             if r != want:
-                bad = "read returned %s, expected %s" % (r, want)
-        elif op[0] == "readall":
-            items = sorted("%s:%s:%s" % (t, k, vt.back(v)) for (t, k), v in ref.items() if op[1] is None or t == op[1])
-            if r != "rows " + " ".join(items):
-                bad = "read_all returned %s, expected rows %s" % (r, " ".join(items))
+                bad = "read(%r, %r) returned %s, expected %s" % (op[1], op[2], clip(r, 80), clip(want, 80))
+        elif op[0] in ("readall", "readpaged"):
+            items = sorted("%s:%s:%s" % (ttok(t), k, vtok(v)) for (t, k), v in ref.items() if op[1] is None or t == op[1])
+            want = "rows " + " ".join(items)
+            if r != want:
+                df = rows_diff(r, want)
+                if df:
+                    bad = ("read_all(%s) returned %d rows, the live rows are %d; missing (tag:id:value) %s; unexpected %s"
+                           % ("" if op[1] is None else repr(op[1]), df["rows_implementation"], df["rows_model"],
+                              df["missing_in_implementation"], df["unexpected_in_implementation"]))
+                else:
+                    bad = "read_all returned %s" % clip(r, 120)
         if bad:
-            return {"ops": [op_line(o, vt) for o in ops[:i + 1]], "values": {vt.token(v): repr(v)[:60] for v in vt.vals}, "failure": bad}
+            return {"ops": [op_line(("readall", o[1]) if o[0] == "readpaged" else o) for o in ops[:i + 1]], "failure": bad}
     return None
 
+
+def shrink(be, ops, budget_s):
+    """delta debugging on a failing op list (every sub-list is a legal input of the oracle); returns the smallest failing list found"""
+    t0 = time.time()
+    hit = spec_oracle(be, ops)
+    if not hit:
+        return None
+    cur = ops[:len(hit["ops"])]
+    # coarse passes first: only the creates and the failing op; then without reads / reopens / updates / deletes
+    for keep in (lambda o: o[0] == "create", lambda o: o[0] in ("create", "delete"), lambda o: o[0] not in ("read", "readall", "readpaged"),
+                 lambda o: o[0] != "reopen", lambda o: o[0] != "update"):
+        cand = [o for o in cur[:-1] if keep(o)] + [cur[-1]]
+        if len(cand) < len(cur):
+            h = spec_oracle(be, cand)
+            if h:
+                cur, hit = cand[:len(h["ops"])], h
+    n = 2
+    while len(cur) >= 2 and time.time() - t0 < budget_s:
+        chunk = max(1, len(cur) // n)
+        reduced = False
+        for s in range(0, len(cur), chunk):
+            cand = cur[:s] + cur[s + chunk:]
+            if not cand:
+                continue
+            h = spec_oracle(be, cand)
+            if h:
+                cur = cand[:len(h["ops"])]
+                hit = h
+                n = max(n - 1, 2)
+                reduced = True
+                break
+            if time.time() - t0 > budget_s:
+                break
+        if not reduced:
+            if chunk == 1:
+                break
+            n = min(len(cur), n * 2)
+    return hit
+
+
+def search(be, tier, seed, vals, th_errors):
+    """find a concrete op list on which the map laws fail on the real SqliteStorage: short sequences first, then the size-scaling
+    programs; shrink it"""
+    srng = rng_for(seed, "c09search")
+    tried = {"short": 0, "short_tricky_tags": 0, "scaled": 0}
+    hit = None
+    for k in range(2000 if tier == "quick" else 20000):
+        tricky = k % 3 == 2
+        tags = pick_tags(srng, 4) if tricky else TAGS
+        tried["short_tricky_tags" if tricky else "short"] += 1
+        hit = spec_oracle(be, gen_ops(srng, srng.randint(2, 15), vals, tags))
+        if hit:
+            hit["found_by"] = "short random sequences" + (" over tricky tags" if tricky else "")
+            break
+    if not hit:
+        for ops, meta in scaled_plan(rng_for(seed, "c09search-scaled"), tier, "sqlite"):
+            tried["scaled"] += 1
+            hit = spec_oracle(be, ops)
+            if hit:
+                hit["found_by"] = "size-scaling program %r" % (meta,)
+                break
+    if hit:
+        full = [parse_line(l) for l in hit["ops"]]
+        small = shrink(be, full, 10 if tier == "quick" else 60)
+        if small and len(small["ops"]) <= len(hit["ops"]):
+            small["found_by"] = hit["found_by"]
+            small["shrunk_from_ops"] = len(hit["ops"])
+            hit = small
+        hit["backend"] = "SqliteStorage"
+        hit["ops_summary"] = summarize(hit["ops"], keep=20)
+        hit["n_ops"] = len(hit["ops"])
+        hit["note"] = "value tokens: b<hex> bytes, p<n>_<k> = bytes(range(256)) repeated, n bytes starting at byte k, q<n>_<b> = n times byte b, " \
+                      "i<int>, s<utf8 hex> str, f<float>; tag tokens: plain or @<code points>; replay with ./check C09 --replay <this file>"
+    elif th_errors:
+        hit = {"backend": "SqliteStorage", "failure": th_errors[0], "ops": "threaded stress (see harness/c09_storage.py threaded_stress / "
+               "threaded_bulk): 6 threads with creates/updates/reads on own rows; 1 bulk writer + 3 read_all readers"}
+    return hit, tried
+
+
+# ---------------------------------------------------------------------------------------------------------------
+# threads
 
 def threaded_stress(be, rng, nthreads, nops):
     """creates/updates/reads from several threads, each on rows it created; no write may be lost."""
@@ -277,6 +953,149 @@ def threaded_stress(be, rng, nthreads, nops):
     return errors, len(allrows)
 
 
+def threaded_bulk(be, rng, nrows, nreaders):
+    """one writer creates `nrows` rows of tag 'bulk' (rows of another tag sprinkled in, some own rows deleted again) while
+    `nreaders` threads call read_all('bulk') / read_all(): every snapshot must contain every row whose create was acknowledged
+    before the read began and whose delete had not begun when it ended, with the value written; no acknowledged-deleted row."""
+    be.reset()
+    errors = []
+    ids = []                 # ids[i] = id of the i-th bulk row, appended after the create returned
+    del_started = set()      # indexes whose delete has been issued
+    del_done = set()
+    done = threading.Event()
+    other_p = rng.choice([0.0, 0.05, 0.125])
+    wr = rng_for(rng.randrange(10 ** 9), "c09bulkw")
+    snapshots = [0]
+
+    def writer():
+        try:
+            for i in range(nrows):
+                if wr.random() < other_p:
+                    be.st.create("other", b"o%d" % i)
+                ids.append(be.st.create("bulk", b"w%d" % i))
+                if i > 50 and wr.random() < 0.04:
+                    j = wr.randrange(i - 40)
+                    if j not in del_started:
+                        del_started.add(j)
+                        be.st.delete("bulk", ids[j])
+                        del_done.add(j)
+        except Exception as e:  # noqa
+            errors.append("bulk writer raised %r" % (e,))
+        finally:
+            done.set()
+
+    def reader(k):
+        try:
+            last = False
+            while True:
+                fin = done.is_set()
+                n0 = len(ids)
+                gone_before = set(del_done)
+                if k % 2:
+                    snap = be.st.read_all("bulk")
+                else:
+                    snap = be.st.read_all().get("bulk", {})
+                started_after = set(del_started)
+                snapshots[0] += 1
+                for i in range(n0):
+                    eid = ids[i]
+                    if i in gone_before:
+                        if eid in snap and snap[eid] == b"w%d" % i:
+                            errors.append("reader %d: row %d (id %s) was deleted before the read began but is in the snapshot" % (k, i, eid))
+                            return
+                    elif i not in started_after:
+                        if snap.get(eid) != b"w%d" % i:
+                            errors.append("reader %d: snapshot of %d rows misses the acknowledged row #%d (id %s): got %r; %d creates were "
+                                          "acknowledged before the read began" % (k, len(snap), i, eid, snap.get(eid), n0))
+                            return
+                if last:
+                    return
+                if fin:
+                    last = True
+        except Exception as e:  # noqa
+            errors.append("bulk reader %d raised %r" % (k, e))
+
+    ths = [threading.Thread(target=writer)] + [threading.Thread(target=reader, args=(k,)) for k in range(nreaders)]
+    for t in ths:
+        t.start()
+    for t in ths:
+        t.join()
+    final = be.st.read_all("bulk")
+    want = {ids[i]: b"w%d" % i for i in range(len(ids)) if i not in del_done}
+    if final != want and not errors:
+        errors.append("after the bulk write read_all('bulk') has %d rows, %d were acknowledged and not deleted; missing ids %s"
+                      % (len(final), len(want), sorted(set(want) - set(final))[:5]))
+    return errors, len(ids), snapshots[0]
+
+
+# ---------------------------------------------------------------------------------------------------------------
+# the generated SQL-site table
+
+def sql_sites_obligation():
+    """regenerate Gen/SqlSites.lean from the repo under test, build Props/C09Sql.lean (kept outside the default import closure) and
+    audit its theorems; everything under one lock.  -> (failures, n_rows, n_theorems, changed rows for the diagnosis)"""
+    ob = load_obligations(PID)
+    mods = ob.get("table_modules", [])
+    thms = ob.get("table_theorems", [])
+    os.makedirs(os.path.join(LEAN, ".lake"), exist_ok=True)
+    with open(os.path.join(LEAN, ".lake", "c09sql.lock"), "w") as lk:
+        fcntl.flock(lk, fcntl.LOCK_EX)
+        try:
+            sites, _changed = gen_sql_sites.generate(write=True)
+            # which generated rows are not in the audited table (textual; diagnosis only, the verdict is Lean's)
+            audited_src = open(os.path.join(LEAN, "Csverif", "Props", "C09Sql.lean"), encoding="utf8").read()
+            new_rows = [{k: r[k] for k in ("method", "kind", "sql", "ctx", "inLoop", "underMutex", "hasLimit", "exitsBefore", "params")}
+                        for r in sites if gen_sql_sites.render_row(r) not in audited_src]
+            fails = []
+            for m in mods:
+                ok, log = lean_build_module(m)
+                if not ok:
+                    fails.append("%s no longer checks (the SQL-site table generated from the repo differs from the audited one): %s"
+                                 % (m, log[-500:].replace("\n", " ")))
+            if not fails:
+                adir = os.path.join(LEAN, ".lake", "audit")
+                os.makedirs(adir, exist_ok=True)
+                fn = os.path.join(adir, "Audit_C09Sql_%d.lean" % os.getpid())
+                with open(fn, "w") as f:
+                    f.write("".join("import %s\n" % m for m in mods) + "".join("#print axioms %s\n" % t for t in thms))
+                p = subprocess.run(["lake", "env", "lean", fn], cwd=LEAN, capture_output=True, text=True, timeout=1800)
+                os.unlink(fn)
+                out = p.stdout + p.stderr
+                found = {}
+                for m in re.finditer(r"'([^']+)' depends on axioms: \[([^\]]*)\]", out):
+                    found[m.group(1)] = [a.strip() for a in m.group(2).replace("\n", " ").split(",") if a.strip()]
+                for m in re.finditer(r"'([^']+)' does not depend on any axioms", out):
+                    found[m.group(1)] = []
+                for t in thms:
+                    if t not in found:
+                        fails.append("table theorem %s missing or does not check" % t)
+                    elif [a for a in found[t] if a not in ALLOWED_AXIOMS]:
+                        fails.append("table theorem %s depends on disallowed axioms %s" % (t, found[t]))
+            return fails, len(sites), len(thms), new_rows
+        finally:
+            fcntl.flock(lk, fcntl.LOCK_UN)
+
+
+# ---------------------------------------------------------------------------------------------------------------
+# the check
+
+def do_replay(res, path, sq):
+    obj = json.load(open(path))
+    f = obj.get("failing", obj)
+    if not isinstance(f.get("ops"), list):
+        print("REPLAY: %s has no op list (threaded finding)" % path)
+        return
+    ops = [parse_line(l) for l in f["ops"]]
+    hit = spec_oracle(sq, ops)
+    if hit:
+        print("REPLAY: still fails on %s after %d ops: %s" % (REPO, len(hit["ops"]), hit["failure"]))
+    else:
+        print("REPLAY: the %d ops no longer fail on %s" % (len(ops), REPO))
+    sys.stdout.flush()
+    sq.cleanup()
+    sys.exit(1 if hit else 0)          # a replay is not a check run: no evidence file is written
+
+
 def run(res, tier, seed, proof_broken, replay):
     rng = rng_for(seed, "c09")
     vals = value_pool(rng)
@@ -284,6 +1103,21 @@ def run(res, tier, seed, proof_broken, replay):
     sq, mk = RealSqlite(), RealMock()
     opens, fixed = load_known_findings(PID)
     try:
+        if replay:
+            do_replay(res, replay, sq)
+            return
+        # 1b. the generated SQL-site table: regenerated, built and audited (two lake subprocesses) while the differential runs go on
+        table_box = {}
+
+        def table_job():
+            t0 = time.time()
+            try:
+                table_box["r"] = sql_sites_obligation()
+            except BaseException as e:  # noqa  (reported below, in the main thread)
+                table_box["exc"] = e
+            table_box["s"] = round(time.time() - t0, 1)
+        table_thread = threading.Thread(target=table_job)
+        table_thread.start()
         # 2. known findings (MockStorage fixture) and fixed entries, replayed on the real classes
         mk.reset()
         a = mk.st.create("t", b"7")
@@ -311,55 +1145,114 @@ def run(res, tier, seed, proof_broken, replay):
             if sq.st.read("t", i) != b"abc":
                 res.violation({"property": PID, "kind": "regression of fixed finding", "id": "sqlite-read-returns-row-tuple",
                                "ops": ["create t b'abc'", "read t <id>"], "got": repr(sq.st.read("t", i))})
-        # 3. correspondence
+        # 3a. correspondence, short sequences (plain tags, then tricky tags)
+        t0 = time.time()
         seqs = [gen_ops(rng, rng.randint(3, nlen), vals) for _ in range(nseq)]
-        vt = ValTable()
-        l1, r1, d1 = correspondence("sqlite", sq, seqs, vt)
-        l2, r2, d2 = correspondence("mockstorage", mk, seqs, vt)
+        seqs += [gen_ops(rng, rng.randint(3, nlen), vals, pick_tags(rng, rng.choice([2, 3, 4]))) for _ in range(nseq // 2)]
+        l1, r1, d1 = correspondence("sqlite", sq, seqs)
+        l2, r2, d2 = correspondence("mockstorage", mk, seqs)
+        t_short = time.time() - t0
+        # 3b. correspondence, size-scaling programs
+        t0 = time.time()
+        st_sq, st_mk = ScaleStats(), ScaleStats()
+        plan_sq = scaled_plan(rng_for(seed, "c09scaled-sqlite"), tier, "sqlite")
+        plan_mk = scaled_plan(rng_for(seed, "c09scaled-mock"), tier, "mock")
+        l3, r3, d3 = correspondence("sqlite", sq, [p[0] for p in plan_sq], stats=st_sq)
+        l4, r4, d4 = correspondence("mockstorage", mk, [p[0] for p in plan_mk], stats=st_mk)
+        t_scaled = time.time() - t0
+        miss = st_sq.missing(CAP[tier])
+        if miss and not (d3 or d1):
+            raise HarnessError("the size-scaling generator did not reach every checkpoint size: %s" % "; ".join(miss))
+        # 3c. threads
+        t0 = time.time()
         th_errors, th_rows = [], 0
         for k in range(2 if tier == "quick" else 10):
             e, n = threaded_stress(sq, rng, 6, 60 if tier == "quick" else 300)
             th_errors += e
             th_rows += n
+        bulk_rows = bulk_snaps = 0
+        for k in range(2 if tier == "quick" else 8):
+            e, n, s = threaded_bulk(sq, rng, rng.choice([1100, 1500, 2100]) if tier == "quick" else rng.choice([1100, 2100, 4200, 6000]), 3)
+            th_errors += e
+            bulk_rows += n
+            bulk_snaps += s
+        t_threads = time.time() - t0
         hist = {}
-        for ln in l1:
+        for ln in l1 + l3:
             hist[ln.split()[0]] = hist.get(ln.split()[0], 0) + 1
         outcomes = {}
-        for r in r1 + r2:
+        for r in r1 + r2 + r3 + r4:
             k = r.split()[0]
             outcomes[k] = outcomes.get(k, 0) + 1
         distinct = len({(a, b) for a, b in zip(l1, r1) if a != "reset"} | {(a, b) for a, b in zip(l2, r2) if a != "reset"})
+        fam = {}
+        tagkinds = {}
+        for _ops, meta in plan_sq:
+            fam[meta["family"]] = fam.get(meta["family"], 0) + 1
+            for t in meta["tags"]:
+                tagkinds[ttok(t)] = tagkinds.get(ttok(t), 0) + 1
         res.coverage.update({
-            "evaluations": len(l1) + len(l2), "programs": 2 * nseq, "distinct_nontrivial": distinct,
-            "rule": "random op sequences (create/update/delete/read/read_all/reopen) over 3 tags, ids drawn from returned ids "
-                    "plus never-used ones and None, values = empty/non-UTF-8/100KB bytes, ints, strs, floats; each sequence on a fresh "
-                    "real SQLite file with close+reopen, and on MockStorage; distinct = distinct (operation line, result) pairs",
-            "samples": [{"ops": l1[1:8], "results": r1[1:8]}], "disagreements_checked": len(d1) + len(d2),
+            "evaluations": len(l1) + len(l2) + len(l3) + len(l4), "programs": 2 * len(seqs) + len(plan_sq) + len(plan_mk),
+            "distinct_nontrivial": distinct,
+            "rule": "random op sequences (create/update/delete/read/read_all/reopen) over 3 plain tags and over 2-4 tags drawn from "
+                    "prefix / SQL-wildcard / quote / case-variant / unicode / empty tags, ids drawn from returned ids plus never-used ones "
+                    "and None, values = empty/non-UTF-8/64KiB/100KB bytes, ints, strs, floats; each sequence on a fresh real SQLite file "
+                    "with close+reopen, and on MockStorage; distinct = distinct (operation line, result) pairs of the short sequences; plus "
+                    "the size-scaling programs described under `scaled`",
+            "samples": [{"ops": l1[1:8], "results": r1[1:8]}],
+            "disagreements_checked": len(d1) + len(d2) + len(d3) + len(d4),
             "op_histogram": hist, "result_histogram": outcomes, "threaded_runs": 2 if tier == "quick" else 10,
-            "threaded_rows_checked": th_rows, "fingerprints": fingerprints(FP_SPEC),
+            "threaded_rows_checked": th_rows, "threaded_bulk": {"runs": 2 if tier == "quick" else 8, "rows_written": bulk_rows,
+                                                                 "concurrent_read_all_snapshots_checked": bulk_snaps},
+            "scaled": {
+                "rule": "bulk programs: growth (create until the biggest tag holds N rows; tag pattern single / roundrobin / blocks / mostly-one / "
+                        "random; deletes+updates interleaved with probability churn; read_all(tag) and read_all() whenever a live count "
+                        "is a checkpoint size), shrink (N+d rows, d deleted as prefix / suffix / middle range / stride / random so that exactly "
+                        "N stay), pointwise (reads/updates/deletes at ids ± powers of two, right id under the wrong tag), payload (0 B .. 64 KiB, "
+                        "> 1 MiB in thorough); every program ends with read_all per tag and for all tags, close+reopen, the same again; "
+                        "checkpoint sizes = " + ",".join(str(s) for s in SPECIAL if s <= CAP[tier]) + "; cap %d rows per tag" % CAP[tier],
+                "programs_sqlite": len(plan_sq), "programs_mock": len(plan_mk), "families": fam, "ops_sqlite": len(l3), "ops_mock": len(l4),
+                "read_all_calls": st_sq.readalls + st_mk.readalls, "largest_read_all_rows": st_sq.max_rows,
+                "read_all_size_histogram_sqlite": {"read_all(tag)": st_sq.ordered(st_sq.sizes["tag"]), "read_all()": st_sq.ordered(st_sq.sizes["all"])},
+                "read_all_size_histogram_sqlite_contiguous_ids": st_sq.ordered(st_sq.contig),
+                "read_all_size_histogram_sqlite_gappy_ids": st_sq.ordered(st_sq.gappy),
+                "read_all_size_histogram_mock": {"read_all(tag)": st_mk.ordered(st_mk.sizes["tag"]), "read_all()": st_mk.ordered(st_mk.sizes["all"])},
+                "checkpoint_sizes_not_reached": miss,
+                "payload_histogram": payload_hist([p[0] for p in plan_sq] + seqs), "tags_used": tagkinds,
+                "model_paged_reader_calls": sum(1 for ln in l3 if ln.startswith("readpaged")),
+                "sample_program": {"meta": plan_sq[2][1], "ops": summarize([op_line(o) for o in plan_sq[2][0]], keep=6)},
+            },
+            "seconds": {"short": round(t_short, 1), "scaled": round(t_scaled, 1), "threads": round(t_threads, 1)},
+            "fingerprints": fingerprints(FP_SPEC),
         })
         res.assumptions += ["SQLite durability and per-statement atomicity (WAL, mutex) are trusted; the model's reopen is the identity",
-                            "OS thread schedules are sampled, not enumerated (partial)"]
-        broken = list(proof_broken)
-        if d1 or d2:
-            broken.append("correspondence storage-layer: %r" % ((d1 + d2)[0],))
+                            "OS thread schedules are sampled, not enumerated (partial)",
+                            "the SQL-site extractor (tools/gen_sql_sites.py, syntactic) is trusted; SQLite's semantics of the audited statements "
+                            "is the hand-written model, tied by the differential runs up to the tier's row cap"]
+        table_thread.join()
+        if "exc" in table_box:
+            raise HarnessError("SQL-site table obligation could not be evaluated: %r" % (table_box["exc"],))
+        table_fails, n_sites, n_table_thms, new_rows = table_box["r"]
+        res.coverage["obligations"] = res.coverage.get("obligations", 0) + n_table_thms
+        res.coverage["discharged"] = res.coverage.get("discharged", 0) + (0 if table_fails else n_table_thms)
+        res.coverage["sql_site_table"] = {"rows": n_sites, "theorems": load_obligations(PID).get("table_theorems", []),
+                                          "checks": not table_fails, "rows_not_in_audited_table": new_rows[:8], "seconds": table_box["s"]}
+        broken = list(proof_broken) + table_fails
+        dall = d1 + d2 + d3 + d4
+        if dall:
+            broken.append("correspondence storage-layer: %r" % (dall[0],))
         if th_errors:
             broken.append("threaded stress: " + th_errors[0])
         if broken:
-            hit = None
-            srng = rng_for(seed, "c09search")
-            for _ in range(2000 if tier == "quick" else 20000):
-                hit = spec_oracle(sq, gen_ops(srng, srng.randint(2, 15), vals))
-                if hit:
-                    hit["backend"] = "SqliteStorage"
-                    break
-            if not hit and th_errors:
-                hit = {"backend": "SqliteStorage", "failure": th_errors[0], "ops": "threaded stress: 6 threads, creates/updates/reads on own rows"}
+            hit, tried = search(sq, tier, seed, vals, th_errors)
             if hit:
-                res.violation({"property": PID, "kind": "map law fails on implementation", "failing": hit, "broken": broken})
+                res.violation({"property": PID, "kind": "map law fails on implementation", "failing": hit,
+                               "broken": [clip(b, 1500) for b in broken], "search": tried,
+                               "sql_rows_not_in_audited_table": new_rows[:8]})
             else:
-                res.violation({"property": PID, "kind": "proof obligation or correspondence no longer checks", "broken": broken,
-                               "first_disagreements": (d1 + d2)[:3]}, no_input=True)
+                res.violation({"property": PID, "kind": "proof obligation or correspondence no longer checks",
+                               "broken": [clip(b, 1500) for b in broken], "search": tried,
+                               "sql_rows_not_in_audited_table": new_rows[:8], "first_disagreements": dall[:3]}, no_input=True)
     finally:
         sq.cleanup()
 
